@@ -119,6 +119,9 @@ struct Config {
     uint64_t step_budget = 2000000;
     uint64_t oom_at = 0;          // F-oom: fail the k-th raw mmap (1-based), 0 = never
     uint64_t oom_until = 0;       // ... and all up to this index (inclusive) when > oom_at
+    size_t oom_size = 0;          // F-oom aimed at one kind of request: the oom_size_nth raw mmap of exactly this length
+    int oom_size_nth = 0;         // ... starts the refusal window (oom_at = that call, oom_until = oom_at + oom_size_len)
+    uint64_t oom_size_len = 0;
 };
 extern Config g_cfg;
 
